@@ -5,6 +5,7 @@ import (
 	"bytes"
 	"context"
 	"fmt"
+	"io"
 	gofs "io/fs"
 	"strings"
 
@@ -123,6 +124,25 @@ func c04Layers() []layer {
 				panic(err)
 			}
 			return c, []hackpadfs.FS{src, store}, func() {}
+		}},
+		{"cache(mem,mem) warm", readOps, func() (hackpadfs.FS, []hackpadfs.FS, func()) {
+			// the same with everything already looked up and read through the cache: an invalid spelling of a
+			// cached name must not be answered from the cache
+			src, store := newMem(), newMem()
+			prepTree(src)
+			c, err := cache.NewReadOnlyFS(src, store.(*mem.FS), cache.ReadOnlyOptions{})
+			if err != nil {
+				panic(err)
+			}
+			for _, p := range []string{".", "d", "f", "d/f"} {
+				_, _ = hackpadfs.Stat(c, p)
+				if f, err := c.Open(p); err == nil {
+					_, _ = io.ReadAll(f)
+					_ = f.Close()
+				}
+				_, _ = hackpadfs.ReadDir(c, p)
+			}
+			return c, []hackpadfs.FS{src}, func() {}
 		}},
 		{"tar", readOps, func() (hackpadfs.FS, []hackpadfs.FS, func()) {
 			dest := newMem()
